@@ -24,6 +24,8 @@ type vfC09Case struct {
 	Target  int        `json:"target"`   // which entry gets the absolute path
 	Delete  bool       `json:"delete"`   // stop-and-delete after the transfer (deletion is in scope too)
 	Escapes bool       `json:"escapes"`  // computed: some name resolves outside the destination under plain Join
+	Spell   int        `json:"spell,omitempty"`     // how the user spelled the destination: 0 clean, 1 trailing separator, 2 "/./" inside, 3 "x/../" inside, 4 doubled separator
+	Empty   bool       `json:"empty_dest,omitempty"` // the destination starts out empty
 }
 
 const vfDestDepth = 4 // the destination sits this many levels below the sandbox root
@@ -45,8 +47,23 @@ func vfC09Run(cs vfC09Case) string {
 		os.MkdirAll(filepath.Join(root, d, "a"), 0755)
 		os.WriteFile(filepath.Join(root, d, "a", "x"), []byte("a/x "+d), 0644)
 	}
-	os.WriteFile(filepath.Join(dest, "inside"), []byte("inside"), 0644)
+	if !cs.Empty {
+		os.WriteFile(filepath.Join(dest, "inside"), []byte("inside"), 0644)
+	}
 	os.Remove(filepath.Join(dest, "canary"))
+	// the same directory, spelled the way a user or a configuration file may spell it
+	sep := string(os.PathSeparator)
+	spelled := dest
+	switch cs.Spell {
+	case 1:
+		spelled = dest + sep
+	case 2:
+		spelled = filepath.Dir(dest) + sep + "." + sep + "dest"
+	case 3:
+		spelled = filepath.Dir(dest) + sep + "dest2" + sep + ".." + sep + "dest"
+	case 4:
+		spelled = filepath.Dir(dest) + sep + sep + "dest"
+	}
 	// real files to send
 	src := filepath.Join(base, "src", "top")
 	os.MkdirAll(src, 0755)
@@ -110,7 +127,7 @@ func vfC09Run(cs vfC09Case) string {
 		}
 		return files
 	}
-	r.run(paths, dest, 60*time.Second)
+	r.run(paths, spelled, 60*time.Second)
 	if cs.Delete {
 		recv := r.server
 		if !cs.Cfg.Upload {
@@ -124,6 +141,9 @@ func vfC09Run(cs vfC09Case) string {
 	}
 	if d := vfDiffSnap(before, after, true); d != "" {
 		return fmt.Sprintf("something outside the destination changed: %s (names %q; %s)", d, rels, r.describe())
+	}
+	if st, err := os.Stat(dest); err != nil || !st.IsDir() {
+		return fmt.Sprintf("the destination directory itself (given as %q) is gone after the transfer: %v (names %q; %s)", spelled, err, rels, r.describe())
 	}
 	if r.hung {
 		return "transfer did not finish: " + r.describe()
@@ -181,6 +201,8 @@ func vfGenC09(rt *rapid.T) vfC09Case {
 	cs.Abs = rapid.IntRange(0, 5).Draw(rt, "abs") == 0
 	cs.Target = rapid.IntRange(0, n-1).Draw(rt, "target")
 	cs.Delete = rapid.IntRange(0, 2).Draw(rt, "delete") == 0
+	cs.Spell = rapid.SampledFrom([]int{0, 0, 0, 1, 2, 3, 4}).Draw(rt, "spell")
+	cs.Empty = rapid.IntRange(0, 2).Draw(rt, "emptydest") == 0
 	// does a plain Join leave the destination?
 	for i, rel := range cs.Rel {
 		j := filepath.Join(append([]string{"/d/e/s/t"}, rel...)...)
@@ -204,6 +226,10 @@ func TestVF_C09(t *testing.T) {
 		}
 		if cs.Escapes {
 			labels = append(labels, "would_escape_under_plain_join")
+		}
+		labels = append(labels, fmt.Sprintf("dest_spelling_%d", cs.Spell))
+		if cs.Empty {
+			labels = append(labels, "empty_destination")
 		}
 		c.eval(cs, cs.Escapes, labels...)
 		return msg
